@@ -1770,8 +1770,12 @@ func (k *Kernel) handleStateMachineRoundEntrance(ctx context.Context, s *kState,
 	// And now we need to respond with the matching view.
 	vrv, _, status := s.FindView(re.H, re.R, "(*Kernel).handleStateMachineRoundEntrance")
 	if vrv == nil {
-		// There is one acceptable condition here -- it was before the committing round.
-		if status == ViewBeforeCommitting {
+		// There are two acceptable conditions here -- it was before the committing round,
+		// or it is a later round of the height we are committing
+		// (the state machine left the committing round through a timeout
+		// before the precommits that committed it arrived).
+		// Either way that height is decided, so the state machine gets the committed header.
+		if status == ViewBeforeCommitting || status == ViewWrongCommit {
 			// Then we have to load it from the header store.
 			ch, err := k.hStore.LoadCommittedHeader(ctx, re.H)
 			if err != nil {
